@@ -42,6 +42,7 @@ struct Ghost {
     rc: *const RcWord,
     me_owner: bool,
     mid_owner_op: bool,
+    lazy_dec: bool,
     refs_me: i64,
     refs_others: i64,
     pending: bool,
@@ -60,6 +61,7 @@ static mut G: Ghost = Ghost {
     rc: core::ptr::null(),
     me_owner: false,
     mid_owner_op: false,
+    lazy_dec: false,
     refs_me: 0,
     refs_others: 0,
     pending: false,
@@ -114,12 +116,12 @@ unsafe fn inv(rc: &RcWord) -> bool {
 unsafe fn bounds(rc: &RcWord) -> bool {
     let w = raw(rc);
     let c = w.value() as i64;
-    c >= -CMAX && c <= CMAX && (rc.biased_counter.get() as i64) <= CMAX && G.refs_me <= CMAX && G.refs_others <= CMAX
+    c >= -CMAX && c <= CMAX && (rc.biased_counter.get() as i64) <= CMAX && G.refs_me + G.refs_others <= CMAX
 }
 
-/// A fully symbolic reference-count word + ghost state satisfying I.
-/// owner_sel: 0 = this thread owns, 1 = another thread owns, 2 = no owner (merged)
-unsafe fn any_state(data: u8) -> RcBox<u8> {
+/// Make the count word fully symbolic and reset the ghost state.
+/// owner selector: 0 = this thread owns, 1 = another thread owns, 2 = no owner (merged)
+unsafe fn init_word(rc: &RcWord) {
     let sel: u8 = kani::any();
     kani::assume(sel < 3);
     let tid = match sel {
@@ -127,32 +129,40 @@ unsafe fn any_state(data: u8) -> RcBox<u8> {
         1 => Some(any_other_tid()),
         _ => None,
     };
-    let rb = RcBox {
-        rcword: RcWord {
-            thread_id: Cell::new(tid),
-            biased_counter: Cell::new(kani::any()),
-            shared: SharedPacked(AtomicU32::new(kani::any())),
-        },
-        data,
-    };
+    rc.thread_id.set(tid);
+    rc.biased_counter.set(kani::any());
+    rc.shared.0.store(kani::any(), Ordering::SeqCst);
     G.refs_me = kani::any();
     G.refs_others = kani::any();
     kani::assume(G.refs_me >= 0 && G.refs_me <= CMAX && G.refs_others >= 0 && G.refs_others <= CMAX);
     G.pending = kani::any();
     G.me_owner = sel == 0;
     G.mid_owner_op = false;
+    G.lazy_dec = false;
     G.op = Op::NoCas;
     G.budget = 0;
     G.cas_ok = 0;
     G.cas_fail = 0;
     G.my_flip = false;
     G.enqueued = 0;
-    rb
+    G.rc = rc as *const RcWord;
+    kani::assume(inv(rc) && bounds(rc));
+}
+
+/// A stack-allocated box with a fully symbolic count word + ghost state satisfying I.
+unsafe fn any_state(data: u8) -> RcBox<u8> {
+    RcBox {
+        rcword: RcWord {
+            thread_id: Cell::new(None),
+            biased_counter: Cell::new(0),
+            shared: SharedPacked(AtomicU32::new(0)),
+        },
+        data,
+    }
 }
 
 unsafe fn attach(rb: &RcBox<u8>) {
-    G.rc = &rb.rcword as *const RcWord;
-    kani::assume(inv(&rb.rcword) && bounds(&rb.rcword));
+    init_word(&rb.rcword);
 }
 
 /// Rely: what other threads may do between two of this thread's atomic steps.
@@ -164,7 +174,7 @@ unsafe fn interfere() {
         // handles they hold; tid, biased and the merged flag belong to this thread.
         let d: i64 = kani::any();
         kani::assume(d >= -CMAX && d <= CMAX);
-        kani::assume(G.refs_others + d >= 0);
+        kani::assume(G.refs_others + d >= 0 && G.refs_me + G.refs_others + d <= CMAX);
         let c2 = w.value() as i64 + d;
         kani::assume(c2 >= -CMAX && c2 <= CMAX);
         let can_dip = (w.value() as i64) - G.refs_others < 0;
@@ -234,7 +244,14 @@ fn cas_stub(
                 }
                 Op::Unwrap => G.refs_me -= 1,
                 Op::QueueMerge => G.pending = false,
-                Op::FastDecMerge | Op::Unique | Op::NoCas => {}
+                Op::FastDecMerge => {
+                    // the owner's decrement was linearised at its private counter write
+                    if G.lazy_dec {
+                        G.refs_me -= 1;
+                        G.lazy_dec = false;
+                    }
+                }
+                Op::Unique | Op::NoCas => {}
             }
             G.cas_ok += 1;
             let rc = &*G.rc;
@@ -634,6 +651,295 @@ fn has_unique_ref_complete_contract() {
         }
         if G.me_owner && w0.value() == 0 {
             assert!(r);
+        }
+    }
+}
+
+// ------------------------------------------------------------------------------------------
+// handle-level API on a real heap allocation: get_mut / make_mut / try_unwrap / clone / drop /
+// strong_count / explicit merge
+// ------------------------------------------------------------------------------------------
+
+static mut DROPS: u32 = 0;
+
+struct Pay(u8);
+
+impl Drop for Pay {
+    fn drop(&mut self) {
+        unsafe {
+            DROPS += 1;
+        }
+    }
+}
+
+impl Clone for Pay {
+    fn clone(&self) -> Self {
+        Pay(self.0)
+    }
+}
+
+fn enqueue_stub<T: ?Sized + 'static>(_value: &BiasedRc<T>) {
+    unsafe {
+        G.enqueued += 1;
+    }
+}
+
+/// a real allocation made by the real constructor, whose count word is then made symbolic
+unsafe fn any_handle() -> BiasedRc<Pay> {
+    DROPS = 0;
+    let h = BiasedRc::new(Pay(kani::any()));
+    init_word(h.meta());
+    h
+}
+
+#[kani::proof]
+#[kani::stub(SharedPacked::compare_exchange, cas_stub)]
+#[kani::unwind(3)]
+fn get_mut_contract() {
+    unsafe {
+        let mut h = any_handle();
+        kani::assume(G.refs_me >= 1);
+        G.op = Op::Unique;
+        let some = BiasedRc::get_mut(&mut h).is_some();
+        if some {
+            assert!(G.refs_me == 1 && G.refs_others == 0, "exclusive access with another reference alive");
+        }
+        assert!(inv(h.meta()));
+        assert!(DROPS == 0);
+        kani::cover!(some);
+        kani::cover!(!some && G.refs_me == 1 && G.refs_others == 1);
+        mem::forget(h);
+    }
+}
+
+#[kani::proof]
+#[kani::stub(SharedPacked::compare_exchange, cas_stub)]
+#[kani::stub(QueueHandle::enqueue, enqueue_stub)]
+#[kani::unwind(3)]
+fn make_mut_contract() {
+    unsafe {
+        let mut h = any_handle();
+        kani::assume(G.refs_me >= 1 && !G.pending);
+        let shared_before = G.refs_me + G.refs_others > 1;
+        let p0 = h.ptr;
+        let old_rc = h.meta() as *const RcWord;
+        let v0 = h.0;
+        if G.me_owner {
+            G.op = Op::FastDecMerge;
+            G.lazy_dec = true;
+            G.mid_owner_op = true;
+        } else {
+            G.op = Op::SlowDec;
+        }
+        let got = BiasedRc::make_mut(&mut h).0;
+        assert!(got == v0, "make_mut yields the same contents");
+        if shared_before {
+            // someone else can still observe the old allocation: the caller must have been moved
+            // to a private copy, and its reference to the old one given up (exactly one decrement)
+            assert!(h.ptr != p0, "mutable access to an allocation that another reference observes");
+            assert!(DROPS == 0);
+            let m = h.meta();
+            assert!(m.thread_id.get() == Some(me()) && m.biased_counter.get() == 1 && raw(m).0 == 0);
+            if G.lazy_dec {
+                G.refs_me -= 1;
+                G.lazy_dec = false;
+            }
+            G.mid_owner_op = false;
+            assert!(inv(&*old_rc));
+        } else if h.ptr == p0 {
+            G.mid_owner_op = false;
+            assert!(inv(h.meta()));
+        }
+        kani::cover!(shared_before);
+        kani::cover!(!shared_before && h.ptr == p0);
+        mem::forget(h);
+    }
+}
+
+#[kani::proof]
+#[kani::stub(SharedPacked::compare_exchange, cas_stub)]
+#[kani::unwind(3)]
+fn try_unwrap_contract() {
+    unsafe {
+        let h = any_handle();
+        kani::assume(G.refs_me >= 1 && !G.pending);
+        let total = G.refs_me + G.refs_others;
+        let rc = h.meta() as *const RcWord;
+        let w0 = raw(&*rc);
+        let b0 = (*rc).biased_counter.get();
+        let t0 = (*rc).thread_id.get();
+        G.op = Op::Unwrap;
+        G.budget = 1;
+        match BiasedRc::try_unwrap(h) {
+            Ok(p) => {
+                if G.cas_ok == 1 {
+                    assert!(G.refs_at_cas == 0, "unwrapped while another reference exists");
+                } else {
+                    assert!(total == 1, "unwrapped while another reference exists");
+                }
+                assert!(G.refs_others == 0, "unwrapped while another thread holds a reference");
+                assert!(DROPS == 0, "the payload is moved out, not destroyed");
+                mem::forget(p);
+                kani::cover!(t0.is_none());
+                kani::cover!(t0.is_some());
+            }
+            Err(h2) => {
+                assert!(DROPS == 0);
+                if G.cas_fail == 0 {
+                    assert!(raw(&*rc) == w0 && (*rc).biased_counter.get() == b0 && (*rc).thread_id.get() == t0);
+                }
+                assert!(inv(&*rc));
+                mem::forget(h2);
+                kani::cover!(true);
+            }
+        }
+    }
+}
+
+#[kani::proof]
+#[kani::stub(SharedPacked::compare_exchange, cas_stub)]
+#[kani::unwind(3)]
+fn clone_contract() {
+    unsafe {
+        let h = any_handle();
+        kani::assume(G.refs_me >= 1);
+        G.op = Op::SlowInc;
+        G.budget = 1;
+        let h2 = h.clone();
+        if G.me_owner {
+            assert!(G.cas_ok == 0);
+            G.refs_me += 1;
+        } else {
+            assert!(G.cas_ok == 1);
+        }
+        assert!(h2.ptr == h.ptr && inv(h.meta()) && DROPS == 0);
+        mem::forget(h);
+        mem::forget(h2);
+    }
+}
+
+#[kani::proof]
+#[kani::stub(SharedPacked::compare_exchange, cas_stub)]
+#[kani::stub(QueueHandle::enqueue, enqueue_stub)]
+#[kani::unwind(3)]
+fn drop_contract() {
+    unsafe {
+        let h = any_handle();
+        kani::assume(G.refs_me >= 1 && !G.pending);
+        let rc = h.meta() as *const RcWord;
+        let merged0 = raw(&*rc).is_merged();
+        if G.me_owner {
+            G.refs_me -= 1;
+            G.mid_owner_op = true;
+            G.op = Op::FastDecMerge;
+        } else {
+            G.op = Op::SlowDec;
+        }
+        G.budget = 1;
+        drop(h);
+        G.mid_owner_op = false;
+        // destroyed exactly when the last reference of any thread is gone (or handed to the
+        // owner's queue, which destroys it at the merge)
+        if DROPS == 1 {
+            assert!(G.refs_me + G.refs_others == 0, "payload destroyed while a reference is alive");
+            assert!(G.enqueued == 0);
+        } else {
+            assert!(DROPS == 0);
+            assert!((G.enqueued == 1) == G.my_flip);
+            assert!(inv(&*rc));
+            // nobody left, counts merged and nothing pending => it must have been destroyed now
+            // (an unmerged word with no reference is an owner in the middle of its own merge)
+            assert!(G.refs_me + G.refs_others > 0 || G.pending || !(merged0 || G.me_owner));
+        }
+        kani::cover!(DROPS == 1 && G.me_owner);
+        kani::cover!(DROPS == 1 && !G.me_owner);
+        kani::cover!(G.enqueued == 1);
+    }
+}
+
+#[kani::proof]
+#[kani::stub(SharedPacked::compare_exchange, cas_stub)]
+#[kani::unwind(3)]
+fn strong_count_contract() {
+    unsafe {
+        let h = any_handle();
+        kani::assume(G.refs_me >= 1);
+        let rc = h.meta();
+        let w0 = raw(rc);
+        let b0 = rc.biased_counter.get();
+        let t0 = rc.thread_id.get();
+        let n = BiasedRc::strong_count(&h);
+        // read-only
+        assert!(raw(rc) == w0 && rc.biased_counter.get() == b0 && rc.thread_id.get() == t0 && G.cas_ok == 0);
+        // exact once merged
+        if w0.is_merged() && t0.is_none() {
+            assert!(n as i64 == G.refs_me + G.refs_others);
+        }
+        mem::forget(h);
+    }
+}
+
+unsafe fn queue_entry_for(h: &BiasedRc<Pay>) -> Vec<Wrapper> {
+    let mut v: Vec<Wrapper> = Vec::new();
+    v.push(Wrapper(Box::new(ManuallyDrop::new(BiasedRc::from_inner(h.ptr)))));
+    v
+}
+
+/// explicit merge of one queue entry by the owner thread
+#[kani::proof]
+#[kani::stub(SharedPacked::compare_exchange, cas_stub)]
+#[kani::stub(QueueHandle::enqueue, enqueue_stub)]
+#[kani::unwind(3)]
+fn explicit_merge_contract() {
+    unsafe {
+        let h = any_handle();
+        kani::assume(G.me_owner && G.pending);
+        let rc = h.meta() as *const RcWord;
+        let mut q = queue_entry_for(&h);
+        mem::forget(h); // the harness' own handle is only a way to build the entry; refs are ghost
+        G.op = Op::QueueMerge;
+        G.mid_owner_op = true;
+        G.budget = 1;
+        let n = QueueHandle::explicit_merge(&mut q);
+        G.mid_owner_op = false;
+        assert!(n == 1 && q.is_empty());
+        assert!(G.cas_ok == 1 && !G.pending);
+        if G.a_at_cas == 0 {
+            assert!(G.refs_at_cas == 0);
+            assert!(DROPS == 1, "nobody holds it any more: the merge must destroy it");
+        } else {
+            assert!(DROPS == 0, "destroyed by the merge while references exist");
+            assert!(raw(&*rc).is_merged());
+            assert!((*rc).thread_id.get().is_none(), "a merged object must not keep its owner (the owner would go on counting privately)");
+            assert!(inv(&*rc));
+        }
+        kani::cover!(DROPS == 1);
+        kani::cover!(DROPS == 0 && G.cas_fail == 1);
+    }
+}
+
+/// BiasedMerge::merge, same contract (the trait method duplicates the queue step)
+#[kani::proof]
+#[kani::stub(SharedPacked::compare_exchange, cas_stub)]
+#[kani::unwind(3)]
+fn biased_merge_contract() {
+    unsafe {
+        let h = any_handle();
+        kani::assume(G.me_owner && G.pending);
+        let rc = h.meta() as *const RcWord;
+        let entry = BiasedRc::from_inner(h.ptr);
+        mem::forget(h);
+        G.op = Op::QueueMerge;
+        G.mid_owner_op = true;
+        G.budget = 1;
+        BiasedMerge::merge(entry);
+        G.mid_owner_op = false;
+        assert!(G.cas_ok == 1 && !G.pending);
+        if G.a_at_cas == 0 {
+            assert!(DROPS == 1);
+        } else {
+            assert!(DROPS == 0 && raw(&*rc).is_merged() && (*rc).thread_id.get().is_none());
+            assert!(inv(&*rc));
         }
     }
 }
